@@ -198,16 +198,16 @@ CHECKS = {
         technique='Lean 4 proof over hand model with the reader contract as hypothesis + differential correspondence through real files', design='5/C18'),
     'C01': dict(
         text='Lean 4 theorems over the model of the (repaired) ExpressionTokenTranslator - the flat sequence of operands and operators grouped by precedence into a fully parenthesised '
-             'expression - and of the evaluation of that expression: the grouping is exact on EVERY token sequence (group_exact: printed back it is the formula\'s own tokens, brackets '
-             'where the formula has them; mutual induction over the five grouping functions); the complete precedence / associativity table over ALL operators as kernel-evaluated '
-             'finite statements (pair_table: every ordered pair of the 11 binary operators; left_assoc_table; sign_table: a sign on either side of every operator, before %; '
-             'pct_table; malformed_rejected); a blank operand counts as 0 (blank_is_zero, blank_sign); brackets only group (paren_transparent). PARTIAL: the lift from operator pairs '
-             'to chains of arbitrary length and nesting (C01_main of DESIGN.md) is not proved; that quantifier is carried by Tie B: every valid token sequence to 5/6 tokens + random '
-             'chains to 25 tokens x 4 operand assignments (workbook cells and overrides) against the model and against an independent recursive-descent reading; numeric literals on '
-             'a decimal grid vs the nearest double.',
-        note='Partial (see text). Trusted: Lean kernel; standard axioms; that bracket matching read off the token tree equals bracket matching on the token sequence (true for derivations, '
-             'C05) ; CPython arithmetic on the value domain (exact ints, binary64 as rn of exact rationals); float(text) correctly rounded; text forms under & for ints only.',
-        technique='Lean 4 proof (exactness of grouping for all inputs; full operator table by kernel evaluation) + differential correspondence with an independent parser as spec', design='5/C01'),
+             'expression - and of the evaluation of that expression. C01_main: for EVERY stratified expression (every reading the rule "% tightest, then sign, then * /, then + -, then &, '
+             'then comparisons, equal levels to the left, brackets override" allows; any length, any nesting) grouping the token sequence it prints to returns exactly that expression '
+             '(structural induction with a loop-continuation invariant; fuel-free through eventual values + monotonicity); C01_unambiguous: a token sequence has at most one stratified '
+             'reading; C01_main_model: whenever the model\'s grouping with its budget succeeds on such tokens it returns that reading; group_exact: the grouping never drops, reorders or '
+             'invents a token (all sequences); the complete operator tables as kernel-evaluated finite statements (pair_table, left_assoc_table, sign_table, pct_table, '
+             'malformed_rejected); blank_is_zero, blank_sign, paren_transparent. Tie B: every valid token sequence to 5/6 tokens + random chains to 25 tokens x 4 operand assignments '
+             '(workbook cells and overrides) against the model and against an independent recursive-descent reading; numeric literals on a decimal grid vs the nearest double.',
+        note='Trusted: Lean kernel; standard axioms; that the bracket structure read off the token tree equals bracket matching on the token sequence (true for derivations, C05; validated by '
+             'Tie B); CPython arithmetic on the value domain (exact ints, binary64 as rn of exact rationals); float(text) correctly rounded; text forms under & for ints only.',
+        technique='Lean 4 proof (parser-after-printer identity for all stratified expressions; exactness; operator tables) + differential correspondence with an independent parser as spec', design='5/C01'),
     'C12': dict(
         text='Lean 4 theorems over the model of the (repaired) criteria engine _criterion and of _sumifs / _countifs / _sum_if: the operator prefix of a criterion text is decoded as '
              'written (split_ge / _le / _ne / _gt / _lt / _eq / _plain), numbers and blank criterion cells are equality on numbers (decode_number), operator-prefixed numbers and texts '
